@@ -526,6 +526,19 @@ pub fn runs(
             for _ in 0..n_sampled {
                 specs.push(sampled(rng, w, reference, f, "sampled"));
             }
+            if w.has_tasks {
+                // cycles that open exactly at channel reads and stay open across them (appended,
+                // so the runs above are what they were before this pacing existed)
+                let n = match tier {
+                    Tier::Quick => 3,
+                    Tier::Thorough => 8,
+                };
+                for _ in 0..n {
+                    let k = *rng.pick(&[1u32, 7, 64, neutral]);
+                    let p = *rng.pick(&[1u32, 2, 2, 3]);
+                    specs.push(fixed(base(Budget::Const(k), GcTemplate::CycleAtRead { p }), reference, "cycle-opens-at-channel-read", 1));
+                }
+            }
         }
     }
     (specs, exhaustive)
